@@ -117,6 +117,35 @@ def closure_independent(est_name, k, d):
   return fn
 
 
+def dtype_variants(est_name, k, d):
+  """NOT solver-decided (C-level conversions): the same numbers given as python lists, integer
+  arrays, Fortran-ordered or strided arrays give the same distances -- concrete differential run"""
+  def fn(ctx):
+    rs = np.random.RandomState(11)
+    L = rs.randn(k, d)
+    est = mahal.fitted(est_name, L)
+    f = est.get_metric()
+    ui = rs.randint(-5, 6, size=d)
+    vf = rs.randn(d)
+    ref = f(ui.astype(float), vf)
+    for nm, (a, b) in {'int_first': (ui, vf), 'int_list_first': (ui.tolist(), vf), 'int_second': (vf, ui),
+                       'lists': (ui.tolist(), vf.tolist())}.items():
+      got = f(a, b)
+      ctx.require('metric_fun_dtype_%s' % nm, ctx.eq(got, ref, tol=1e-9))
+    ctx.require('metric_fun_symmetric_mixed_dtypes', ctx.eq(f(ui, vf), f(vf, ui), tol=0.0))
+    P = rs.randint(-5, 6, size=(4, 2, d))
+    refD = est.pair_distance(P.astype(float))
+    big = np.zeros((8, 2, d))
+    big[::2] = P
+    for nm, V in {'int64': P, 'list': P.tolist(), 'fortran': np.asfortranarray(P.astype(float)),
+                  'strided': big[::2]}.items():
+      ctx.require('pair_distance_arraylike_%s' % nm, ctx.all_eq(est.pair_distance(V), refD, tol=1e-9))
+      ctx.require('transform_arraylike_%s' % nm,
+                  ctx.all_eq(est.transform(np.asarray(V)[:, 0].tolist() if nm == 'list' else np.asarray(V)[:, 0]),
+                             est.transform(P[:, 0].astype(float)), tol=1e-9))
+  return fn
+
+
 def cases(tier, seed):
   out = []
   gs = mahal.groups(NAMES)
@@ -139,6 +168,9 @@ def cases(tier, seed):
                       cost=k * d))
       out.append(case('closure_g%d_k%d_d%d' % (gi, k, d), closure_independent(rep, k, d), FUNCS,
                       'components_ %dx%d replaced in place after get_metric()' % (k, d), cost=1))
+    out.append(case('dtype_variants_g%d' % gi, dtype_variants(rep, 2, 3), FUNCS,
+                    'fixed random components_ 2x3; int / list / Fortran / strided inputs (concrete differential run, not solver-decided)',
+                    concrete_only=True, validate=1))
   return out
 
 
